@@ -88,7 +88,15 @@ class Cnl2asp:
         SignatureManager.signatures = []
         with open(os.path.join(os.path.dirname(__file__), "grammar.lark"), "r") as grammar:
             cnl_parser = Lark(grammar.read(), propagate_positions=True)
-            specification: SpecificationComponent = CNLTransformer().transform(cnl_parser.parse(self.cnl_input))
+            try:
+                tree = cnl_parser.parse(self.cnl_input)
+            except UnexpectedCharacters as e:
+                # Lark keeps the acceptable terminals in a set: list them in a fixed order, so that the diagnostic
+                # does not depend on the interpreter's hash seed
+                if e.allowed:
+                    e.allowed = sorted(e.allowed)
+                raise
+            specification: SpecificationComponent = CNLTransformer().transform(tree)
             return specification
 
     def __is_predicate(self, name: str):
